@@ -31,6 +31,7 @@ func runC03(c *an.Ctx) {
 	ruleX3(c)
 	ruleX4(c)
 	ruleX5(c)
+	ruleX6(c)
 }
 
 // ---------------------------------------------------------------------------
